@@ -84,6 +84,14 @@ def _modes_alphabet():
     for E in (0., -14.2):
         for spin in (0., 0.5, 1., 1.5):
             out.append(dict(k='GroundStateElec', E=E, spin=spin))
+    # the same kinds of objects with integer-typed parameters (Python ints end up in integer-dtype arrays)
+    out += [dict(k='HarmonicVib', w=[3657, 1595, 3756], sub=None),
+            dict(k='HarmonicVib', w=[-200, -50, 10, 450, 4500], sub=50),
+            dict(k='QRRHOVib', w=[3657, 1595, 3756], sub=None, Bav=1e-44, v0=100, alpha=4),
+            dict(k='EinsteinVib', th=400, u=0), dict(k='DebyeVib', th=215, u=0),
+            dict(k='RigidRotor', geom='linear', sigma=2, thr=[2]),
+            dict(k='RigidRotor', geom='nonlinear', sigma=2, thr=[9, 9, 100]),
+            dict(k='FreeTrans', n=3, M=28), dict(k='GroundStateElec', E=-14, spin=1)]
     out.append(dict(k='LSR', slope=0.3, intercept=2.5, reaction=-40., surf=-10., gas=5.))
     out.append(dict(k='LSR', slope=1.0, intercept=0., reaction=12., surf=0., gas=0.))
     out.append(dict(k='LSR', slope=0.0, intercept=-7., reaction=12., surf=3., gas=-2.))
@@ -302,6 +310,15 @@ def check_mode(case, ctx):
                 ctx.trans()
                 ctx.close('mode: S(P2) - S(P1) = -ln(P2/P1)', vals[(T, P2)]['SoR'] - vals[(T, P1)]['SoR'],
                           -math.log(P2 / P1), dict(sig0), case, rtol=1e-10, scale=abs(vals[(T, P1)]['SoR']) + 10.)
+    # integer-typed T and P give the same values as the equal floats; asking twice gives the same answer
+    for Ti, Pi in ((400, 1), (2800, 30)):
+        for g in GET + (['q'] if has_q else []):
+            a = _f(call(m, 'get_' + g, T=Ti, P=Pi))
+            b = _f(call(m, 'get_' + g, T=float(Ti), P=float(Pi)))
+            c2 = _f(call(m, 'get_' + g, T=Ti, P=Pi))
+            ctx.evals(3)
+            ctx.close('mode: integer-typed T and P give the values of the equal floats; repeated call agrees',
+                      [a, c2], [b, b], dict(sig0, quantity=g), case, rtol=1e-13, atol=1e-300)
     if k == 'HarmonicVib':
         for T in (110., 600.):
             r = ref.harmonic(d['w'], T, d.get('sub'), include_ZPE=False)
@@ -784,8 +801,11 @@ def _chunks(seq, n):
 def shards(tier):
     out = []
     modes = _modes_alphabet()
-    # heavy (Debye) modes get their own shards
-    for ch in _chunks([m for m in modes if m['k'] == 'DebyeVib'], 6):
+    # Debye modes (slow: numerical integrals) in two shards of three crystals each, so that several crystals
+    # with DIFFERENT Debye temperatures are evaluated at the same temperatures inside one process (state
+    # shared between objects - class attributes, caches keyed without the parameters - then shows up as a
+    # closed-form mismatch of the later crystal)
+    for ch in _chunks([m for m in modes if m['k'] == 'DebyeVib'], 2):
         out.append(dict(kind='mode', modes=ch))
     for ch in _chunks([m for m in modes if m['k'] != 'DebyeVib'], 26):
         out.append(dict(kind='mode', modes=ch))
